@@ -3,6 +3,7 @@
 mod c07;
 mod c08;
 mod c11;
+mod c12;
 mod gen;
 mod out;
 mod rng;
@@ -65,6 +66,7 @@ fn main() {
         "C07" => c07::run(seed, count, &mut out, &tmp),
         "C08" => c08::run(seed, count, thorough, &mut out),
         "C11" => c11::run(seed, count, thorough, &mut out),
+        "C12" => c12::run(seed, count, thorough, &mut out),
         other => {
             eprintln!("unknown property {other}");
             std::process::exit(2);
